@@ -427,6 +427,12 @@ def c01_oracle(payload):
                     bad.append('over real ground radiated + dissipated power exceeds the delivered power by %.2f %% of the apparent power' % (100 * imb))
             elif abs(imb) > 0.015:
                 bad.append('power balance off by %.2f %% of the apparent source power (P_src %.6g, P_rad %.6g, P_load %.6g)' % (100 * imb, p_src, p_rad, p_load))
+            # the gain refers to the delivered power whatever power level is requested for the V/m table of the same request
+            zq_, aq_ = Angle(20.0, 25.0, 3), Angle(15.0, 100.0, 3)
+            m.compute_far_field(zq_, aq_); ga_ = np.array(m.far_field.gain)
+            m.compute_far_field(zq_, aq_, pwr=10 ** rng.uniform(-2, 3), dist=10 ** rng.uniform(0, 4)); gb_ = np.array(m.far_field.gain)
+            if np.abs(ga_ - gb_)[ga_ > -150].max(initial=0.0) > 1e-9:
+                bad.append('power balance off when a power level is requested: the gain table moves by %.4g dB, the pattern integral with it' % np.abs(ga_ - gb_)[ga_ > -150].max())
             # the same antenna solved again on the same object (e.g. after a field request): the same powers must come out
             i1 = np.array(m.current).copy(); m.compute(); i2 = np.array(m.current)
             p_src2 = sum(0.5 * (s.voltage * np.conj(m.current[s.idx])).real for s in m.sources)
